@@ -23,3 +23,11 @@ Theorem c05_end_is_permanent_any_iterator : forall e, iter_env e -> forall progs
   check_prop 5 e (c_trace (exec e (init progs) sched)) (c_labels (exec e (init progs) sched)) = true.
 Proof. exact iter_C05. Qed.
 Print Assumptions c05_end_is_permanent_any_iterator.
+
+(** state level, without hypotheses (any kind, any configuration, no [nowrap]): the completed flag of the wrapper
+    over an arbitrary iterator is never reset -- true after the schedule [a], it is true after [a ++ b] *)
+From OCI.proofs Require Import Progress History.
+Theorem c05_completed_flag_is_permanent : forall e c a b,
+  s_f (c_sh (exec e c a)) = true -> s_f (c_sh (exec e c (a ++ b))) = true.
+Proof. exact completed_flag_is_permanent. Qed.
+Print Assumptions c05_completed_flag_is_permanent.
